@@ -6,6 +6,9 @@ import (
 	"strings"
 )
 
+var debugHooks []func(w *World)
+var depVerdictDebug bool
+
 // debug aids: PRUNNERLINT_DUMP=pkgRel:FuncName prints the enumerated paths of a function,
 // PRUNNERLINT_DUMP=roles prints the resolved anchors.
 func debugDump(repo string) bool {
@@ -16,6 +19,12 @@ func debugDump(repo string) bool {
 	w, err := loadWorld(repo, BuildConfig{GOOS: "linux", GOARCH: "amd64"}, nil)
 	if err != nil {
 		fmt.Println(err)
+		return true
+	}
+	for _, h := range debugHooks {
+		h(w)
+	}
+	if spec == "depverdict" {
 		return true
 	}
 	if spec == "roles" {
@@ -58,4 +67,15 @@ func debugDump(repo string) bool {
 		}
 	}
 	return true
+}
+
+func init() {
+	debugHooks = append(debugHooks, func(w *World) {
+		if os.Getenv("PRUNNERLINT_DUMP") != "depverdict" {
+			return
+		}
+		r := newReport("dbg", w)
+		depVerdictDebug = true
+		depVerdict(w, r, "x")
+	})
 }
